@@ -346,20 +346,52 @@ def a_unknown_ref(form, site):
 
 
 def s_ambiguous_ref(form):
-    if not any(is_begin(r) for r in form["survey"]):
-        return []
-    return ref_sites(form)
+    # 2, 3, 4, 5 … elements of the same name: every count >= 2 is ambiguous (not only "seen twice")
+    return [(i, c, k) for (i, c) in ref_sites(form) for k in (2, 3, 4, 5)]
 
 
 def a_ambiguous_ref(form, site):
-    """two questions `twin` in two different sections (root + first section), referenced from `site`"""
-    i, c = site
+    """k questions `twin` in k different sections (an existing section if there is one, the root, and new
+    groups), referenced from `site`"""
+    i, c, k = site
     f = clone(form)
     put_expr(f["survey"][i], c, "${twin}")
     rows = f["survey"]
-    b = next(k for k, r in enumerate(rows) if is_begin(r))
-    rows.insert(b + 1, {"type": "text", "name": "twin", "label": "T"})
+    placed = 0
+    b = next((j for j, r in enumerate(rows) if is_begin(r)), None)
+    if b is not None:
+        rows.insert(b + 1, {"type": "text", "name": "twin", "label": "T"})
+        placed += 1
     rows.append({"type": "text", "name": "twin", "label": "T"})
+    placed += 1
+    j = 0
+    while placed < k:
+        g = fresh(f, "tw_g")
+        kind = "group" if j % 2 == 0 else "repeat"
+        rows += [{"type": f"begin {kind}", "name": g, "label": "G"}, {"type": "text", "name": "twin", "label": "T"},
+                 {"type": f"end {kind}"}]
+        placed += 1
+        j += 1
+    return f, {"cites": ["${twin}"], "model": False}
+
+
+def s_ambiguous_mixed(form):
+    return [(p, k) for p in positions(form) for k in (2, 3, 4)]
+
+
+def a_ambiguous_mixed(form, site):
+    """the repeated name is carried by sections and questions alike (k elements named `twin` in total:
+    a group named twin at the insertion point plus questions in new groups)"""
+    p, k = site
+    f = clone(form)
+    block = [{"type": "begin group", "name": "twin", "label": "G"}, {"type": "text", "name": fresh(f, "tq"), "label": "T"},
+             {"type": "end group"}]
+    f["survey"][p:p] = block
+    for _ in range(k - 1):
+        g = fresh(f, "tw_g")
+        f["survey"] += [{"type": "begin group", "name": g, "label": "G"}, {"type": "text", "name": "twin", "label": "T"},
+                        {"type": "end group"}]
+    f["survey"].append({"type": "calculate", "name": fresh(f, "tc"), "calculation": "concat(${twin}, 'x')"})
     return f, {"cites": ["${twin}"], "model": False}
 
 
@@ -762,6 +794,164 @@ def a_save_to_in_repeat(form, i):
     return f, {"row": i + 2, "cites": ["repeat"], "model": False}
 
 
+def s_save_to_deep(form):
+    return [(p, d, v) for p in positions(form) for d in (0, 1, 2, 3) for v in ("inside", "after-closed-group")]
+
+
+def a_save_to_deep(form, site):
+    """a new repeat with `d` groups nested inside it; the save_to question sits in the innermost group
+    (`inside`: repeat > group^d > question) or directly in the repeat after a closed inner group"""
+    p, d, v = site
+    f = _with_entities(form)
+    r = fresh(form, "srep")
+    q = {"type": "text", "name": r + "_q", "label": "Q", "save_to": "prop"}
+    block = [{"type": "begin repeat", "name": r, "label": "R"}]
+    if v == "inside":
+        for j in range(d):
+            block.append({"type": "begin group", "name": f"{r}_g{j}", "label": "G"})
+        block.append(q)
+        block += [{"type": "end group"}] * d
+    else:
+        for j in range(d):
+            block.append({"type": "begin group", "name": f"{r}_g{j}", "label": "G"})
+        block.append({"type": "text", "name": r + "_f", "label": "F"})
+        block += [{"type": "end group"}] * d
+        block.append(q)
+    block.append({"type": "end repeat"})
+    f["survey"][p:p] = block
+    row = p + block.index(q) + 2
+    return f, {"row": row, "cites": ["repeat"], "model": False}
+
+
+def s_save_to_existing_deep(form):
+    """existing sections that lie below a repeat: a save_to question is added as their first child"""
+    return [i for i, r in enumerate(form["survey"]) if is_begin(r) and (rtype(r) == "begin repeat" or in_repeat(form["survey"], i))]
+
+
+def a_save_to_existing_deep(form, i):
+    f = _with_entities(form)
+    f["survey"].insert(i + 1, {"type": "text", "name": fresh(form, "sq"), "label": "Q", "save_to": "prop"})
+    return f, {"row": i + 3, "cites": ["repeat"], "model": False}
+
+
+# ------------------------------------------------------------------ repaired crash classes: now located rejections
+
+
+def s_empty_section(form):
+    return [(p, k, v) for p in positions(form) for k in ("group", "repeat") for v in ("bare", "disabled-only")]
+
+
+def a_empty_section(form, site):
+    p, k, v = site
+    n = fresh(form, "empt")
+    block = [{"type": f"begin {k}", "name": n, "label": "G"}]
+    if v == "disabled-only":
+        block.append({"type": "text", "name": n + "_q", "label": "Q", "disabled": "yes"})
+    block.append({"type": f"end {k}"})
+    f = clone(form)
+    f["survey"][p:p] = block
+    return f, {"cites": [n], "model": True}
+
+
+def a_entities_no_dataset(form, _):
+    f = clone(form)
+    f["entities"] = [{"label": "concat('a', 'b')"}]
+    return f, {"cites": ["list_name"], "model": False}
+
+
+def s_search_no_choices(form):
+    return [(p, v) for p in positions(form) for v in ("from-repeat", "randomize")]
+
+
+def a_search_no_choices(form, site):
+    p, v = site
+    n = fresh(form, "srch")
+    if v == "from-repeat":
+        f = clone(form)
+        f["survey"][p:p] = [{"type": "select_one ${%s_src}" % n, "name": n, "label": "S", "appearance": "search('x')"}]
+        f["survey"] += [{"type": "begin repeat", "name": n + "_r", "label": "R"}, {"type": "text", "name": n + "_src", "label": "Q"},
+                        {"type": "end repeat"}]
+    else:
+        f = _two_lists(form)
+        f["survey"][p:p] = [{"type": "select_one tl_a", "name": n, "label": "S", "appearance": "search('x')", "parameters": "randomize=true"}]
+    if in_repeat(f["survey"], p) and v == "from-repeat":
+        return None, None
+    return f, {"cites": [n, "search"], "model": False}
+
+
+BAD_TRIGGERS = ["${T}, ${T}", "x ${T}", "${T} ${T}", "T"]
+
+
+def s_bad_trigger(form):
+    if not any(is_question(r) and "name" in r and has_label(r) and rtype(r) == "text" for r in form["survey"]):
+        return []
+    return [(p, k) for p in positions(form) for k in range(len(BAD_TRIGGERS) + 2)]
+
+
+def a_bad_trigger(form, site):
+    """a triggered calculation whose trigger is not exactly one reference to a visible question"""
+    p, k = site
+    t = _target(form)
+    n = fresh(form, "trg")
+    f = clone(form)
+    if k < len(BAD_TRIGGERS):
+        trig = BAD_TRIGGERS[k].replace("T", t)
+        cites = ["trigger"]
+    elif k == len(BAD_TRIGGERS):  # a group is not a question
+        g = fresh(form, "trgg")
+        f["survey"] += [{"type": "begin group", "name": g, "label": "G"}, {"type": "text", "name": g + "_q", "label": "Q"}, {"type": "end group"}]
+        trig, cites = "${%s}" % g, ["trigger", g]
+    else:  # a question without a body control
+        h = fresh(form, "trgh")
+        f["survey"].append({"type": "hidden", "name": h})
+        trig, cites = "${%s}" % h, ["trigger", h]
+    f["survey"].insert(p, {"type": "calculate", "name": n, "calculation": "1 + 1", "trigger": trig})
+    return f, {"cites": cites, "model": False}
+
+
+XML_NAME_CASES = [
+    # (where, column / name, must cite)
+    ("survey-col", "bind::1x", ["1x"]),
+    ("survey-col", "instance::a b", ["a b"]),
+    ("survey-col", "bind::foo:bar", ["foo"]),
+    ("survey-col", "body::x:y", ["x"]),
+    ("choice-col", "1abc", ["1abc"]),
+    ("name", "zz:b", ["zz"]),
+    ("char", "\x01", ["U+0001"]),
+    ("char", "\x0b", ["U+000B"]),
+    ("char", "\ufffe", ["U+FFFE"]),
+]
+
+
+def s_xml_names(form):
+    out = []
+    for k, (where, _, _) in enumerate(XML_NAME_CASES):
+        if where == "choice-col":
+            used = {rtype(r).split(" ")[1] for r in form["survey"] if rtype(r).startswith(("select_one ", "select_multiple ")) and len(rtype(r).split(" ")) > 1}
+            out += [(j, k) for j, c in enumerate(form.get("choices") or []) if c.get("list_name") in used]
+        else:
+            out += [(i, k) for i, r in enumerate(form["survey"]) if is_question(r) and "name" in r and has_label(r)
+                    and rtype(r) in ("text", "integer", "decimal", "date", "string", "int")]
+    return out
+
+
+def a_xml_names(form, site):
+    """names / characters that would make the XForm not well-formed (rejected by the generated-document check)"""
+    i, k = site
+    where, what, cites = XML_NAME_CASES[k]
+    f = clone(form)
+    if where == "survey-col":
+        f["survey"][i][what] = "v"
+    elif where == "choice-col":
+        f["choices"][i][what] = "v"
+    elif where == "name":
+        f["survey"].insert(i + 1, {"type": "text", "name": what, "label": "P"})
+    else:
+        key = next(kk for kk in f["survey"][i] if kk == "label" or kk.startswith("label::"))
+        f["survey"][i][key] = "bad " + what + " char"
+    return f, {"cites": cites, "model": False}
+
+
 def s_save_to_on_section(form):
     return [i for i, r in enumerate(form["survey"]) if is_begin(r) and not in_repeat(form["survey"], i)]
 
@@ -824,6 +1014,7 @@ CATALOGUE = [
     ("section_named_form", s_section_named_form, a_section_named_form),
     ("unknown_ref", ref_sites, a_unknown_ref),
     ("ambiguous_ref", s_ambiguous_ref, a_ambiguous_ref),
+    ("ambiguous_mixed", s_ambiguous_mixed, a_ambiguous_mixed),
     ("malformed_ref", s_malformed_ref, a_malformed_ref),
     ("malformed_ref_choice", s_malformed_ref_choice, a_malformed_ref_choice),
     ("list_missing", s_list_missing, a_list_missing),
@@ -859,6 +1050,13 @@ CATALOGUE = [
     ("save_to_bad_name", s_save_to_bad_name, a_save_to_bad_name),
     ("save_to_in_repeat", s_save_to_in_repeat, a_save_to_in_repeat),
     ("save_to_on_section", s_save_to_on_section, a_save_to_on_section),
+    ("save_to_deep", s_save_to_deep, a_save_to_deep),
+    ("save_to_existing_deep", s_save_to_existing_deep, a_save_to_existing_deep),
+    ("empty_section", s_empty_section, a_empty_section),
+    ("entities_no_dataset", s_once, a_entities_no_dataset),
+    ("search_no_choices", s_search_no_choices, a_search_no_choices),
+    ("bad_trigger", s_bad_trigger, a_bad_trigger),
+    ("xml_names", s_xml_names, a_xml_names),
     ("omit_iid_public_key", s_once, a_omit_iid_public_key),
     ("empty_survey", s_once, a_empty_survey),
     ("missing_survey", s_once, a_missing_survey),
